@@ -165,6 +165,11 @@ inline std::vector<Ev> broad_alphabet() {
         {"WSEGVALV", "WELSEGS\n 'P2' 2005 0 1* INC HF- /\n 2 2 1 1 10 10 0.2 0.0001 /\n 3 3 1 2 10 10 0.2 0.0001 /\n/\nCOMPSEGS\n 'P2' /\n 2 2 1 1 0 10 /\n 2 2 2 1 10 20 /\n/\nWSEGVALV\n 'P2' 3 0.7 0.002 /\n/\n"},
         {"WSEGSICD", "WELSEGS\n 'P2' 2005 0 1* INC HF- /\n 2 2 1 1 10 10 0.2 0.0001 /\n 3 3 1 2 10 10 0.2 0.0001 /\n/\nCOMPSEGS\n 'P2' /\n 2 2 1 1 0 10 /\n 2 2 2 1 10 20 /\n/\nWSEGSICD\n 'P2' 3 3 0.001 1.2 /\n/\n"},
         {"WSEGAICD", "WELSEGS\n 'P2' 2005 0 1* INC HF- /\n 2 2 1 1 10 10 0.2 0.0001 /\n 3 3 1 2 10 10 0.2 0.0001 /\n/\nCOMPSEGS\n 'P2' /\n 2 2 1 1 0 10 /\n 2 2 2 1 10 20 /\n/\nWSEGAICD\n 'P2' 3 3 0.001 1.2 /\n/\n"},
+        // the same MSW keywords as separate events: segments defined at one step, devices given at a later one
+        {"MSW_define", "WELSEGS\n 'P2' 2005 0 1* INC HF- /\n 2 2 1 1 10 10 0.2 0.0001 /\n 3 3 1 2 10 10 0.2 0.0001 /\n/\nCOMPSEGS\n 'P2' /\n 2 2 1 1 0 10 /\n 2 2 2 1 10 20 /\n/\n"},
+        {"WSEGVALV_only", "WSEGVALV\n 'P2' 3 0.7 0.002 /\n/\n"},
+        {"WSEGSICD_only", "WSEGSICD\n 'P2' 3 3 0.001 1.2 /\n/\n"},
+        {"WSEGAICD_only", "WSEGAICD\n 'P2' 3 3 0.001 1.2 /\n/\n"},
         {"WSEGITER", "WSEGITER\n 30 6 0.4 2.0 /\n"},
         {"DRSDT", "DRSDT\n 0.01 /\n"},
         {"DRVDT", "DRVDT\n 0.02 /\n"},
